@@ -661,6 +661,48 @@ func genProject(r *rng.R, name string, tier string) *project {
 			}
 		}
 	}
+	// --- which type a field has: a ROOT object (drawn last, so the rest of the project is what the seed gave before
+	// this dimension existed). Relay-style payloads pointing back at Query, self-referential root fields, root to
+	// root; nullable / non-null / in lists; on generated models and on Query / Mutation. Never on Subscription (known
+	// finding F17i) and never together with omit_root_models: true (known finding F17j) - both are directed projects.
+	if r.Below(3) == 0 && p.cfg["omit_root_models"] != "true" {
+		var roots, holders []string
+		for _, t := range p.types {
+			if t.kind == "object" && (t.name == "Query" || t.name == "Mutation" || t.name == "Subscription") {
+				roots = append(roots, t.name)
+				if t.name != "Subscription" {
+					holders = append(holders, t.name)
+				}
+			}
+		}
+		holders = append(holders, objects...)
+		k := 1 + r.Below(3)
+		for j := 0; j < k; j++ {
+			h := p.byName(pick(r, holders))
+			root := pick(r, roots)
+			taken := map[string]bool{}
+			for _, f := range h.fields {
+				taken[normKey(f.name)] = true
+			}
+			name := pick(r, []string{strings.ToLower(root), "viewer", "root", strings.ToLower(root) + "_ref", "to" + root})
+			for i := 2; taken[normKey(name)]; i++ {
+				name = fmt.Sprintf("%s%d", strings.TrimRight(name, "0123456789"), i)
+			}
+			f := gField{name: name, typ: wrap(r, root), dirs: use("FIELD_DEFINITION")}
+			if r.Below(3) == 0 {
+				f.args = mkArgs()
+			}
+			h.fields = append(h.fields, f)
+			if h.extFrom == 0 && p.nfiles > 1 && len(h.impls) == 0 && len(h.fields) >= 2 && r.Below(3) == 0 {
+				h.extFrom = len(h.fields) - 1
+				h.extFile = (h.file + 1 + r.Below(p.nfiles-1)) % p.nfiles
+			}
+			if h.name != "Query" && h.name != "Mutation" && r.Below(4) == 0 {
+				p.resMark = append(p.resMark, h.name+"."+name)
+			}
+			p.notes = append(p.notes, "rootref:"+h.name+"."+name+":"+f.typ)
+		}
+	}
 	return p
 }
 
@@ -845,7 +887,7 @@ func runSchemas(outDir string, n int, seed uint64, tier string) {
 			fmt.Fprintln(os.Stderr, err)
 			os.Exit(1)
 		}
-		fmt.Fprintf(out, "project\t%s\texec=%s worker=%d model=%s resolver=%s files=%d types=%d\n", p.name, p.exec, p.worker, p.model, p.res, p.nfiles, len(p.types))
+		fmt.Fprintf(out, "project\t%s\texec=%s worker=%d model=%s resolver=%s files=%d types=%d funcsyntax=%s rootrefs=%d\n", p.name, p.exec, p.worker, p.model, p.res, p.nfiles, len(p.types), p.cfg["use_function_syntax_for_execution_context"], len(p.notes))
 	}
 	writeDirected(outDir)
 }
